@@ -93,7 +93,7 @@ def run(ctx):
     F = core.import_flowcal()
     path = os.path.join(ctx.tmpdir, 'c20.fcs')
     seqs = [()] + [q for k in (1, 2, 3) for q in itertools.product(OPS, repeat=k)]
-    nsamples = 3 if ctx.tier == 'quick' else 40
+    nsamples = 3 if ctx.tier == 'quick' else 150
     ids = [('st', si, qi) for si in range(nsamples) for qi in range(len(seqs))]
     cache = {}
     for cid, rng in ctx.cases(ids):
@@ -158,7 +158,7 @@ def run(ctx):
             ctx.case_done(class_key=(kind, len(seq), how), nontrivial=len(seq) >= 1,
                           distinct_key=core.digest(si, qi, how), sample=dict(d, how=how) if (qi == 37 and how == 'pickle2') else None)
     # ---- file-level equality -----------------------------------------------------------
-    nf = 60 if ctx.tier == 'quick' else 1500
+    nf = 60 if ctx.tier == 'quick' else 10000
     p2 = os.path.join(ctx.tmpdir, 'c20b.fcs')
     for cid, rng in ctx.cases([('file', i) for i in range(nf)]):
         spec = zoo.int_spec(rng, n=int(rng.integers(1, 20)), d=int(rng.integers(1, 5))) if rng.random() < 0.6 else \
